@@ -178,6 +178,14 @@ pub fn start_watchdog(ctx: Arc<Ctx>) {
             s.iter().flatten().find(|sl| sl.started.elapsed() > Duration::from_secs(WATCHDOG_SECS)).map(|sl| (sl.stage.to_string(), sl.kind.to_string(), (sl.case)()))
         };
         if let Some((stage, kind, case)) = hit {
+            if !ctx.violations.lock().unwrap().is_empty() {
+                // a violation has already been established by a case that did finish; the case that is
+                // still running adds nothing to the verdict
+                ctx.note(format!("stopped while a case of stage {} was still running after {} s (verdict already established)", stage, WATCHDOG_SECS));
+                let (rule, assumptions) = ctx.meta.get().copied().unwrap_or(("", &[]));
+                let code = ctx.finish(rule, assumptions, Map::new());
+                std::process::exit(code);
+            }
             let path = ctx.write_replay(&stage, &kind, &case, "single case exceeded the watchdog limit (suspected hang)", "watchdog");
             if ctx.termination_is_property {
                 // isolated re-execution
@@ -377,6 +385,8 @@ pub struct Ctx {
     /// reports of the coverage-guided stage (one object per fuzz target)
     pub fuzz: Mutex<Vec<Value>>,
     pub started: Instant,
+    /// (rule, assumptions) of the property, set by main so that the watchdog can write the evidence
+    pub meta: OnceLock<(&'static str, &'static [&'static str])>,
     pub stop: AtomicBool,
     replay_counter: AtomicU64,
 }
@@ -401,6 +411,7 @@ impl Ctx {
             notes: Mutex::new(Vec::new()),
             fuzz: Mutex::new(Vec::new()),
             started: Instant::now(),
+            meta: OnceLock::new(),
             stop: AtomicBool::new(false),
             replay_counter: AtomicU64::new(0),
         }
@@ -473,7 +484,7 @@ impl Ctx {
         C: Case + Sync,
         F: Fn(&C) -> Verdict + Sync,
     {
-        if self.stop.load(Ordering::SeqCst) {
+        if self.stop.load(Ordering::SeqCst) || !self.violations.lock().unwrap().is_empty() {
             return;
         }
         let n = cases.len();
@@ -486,7 +497,7 @@ impl Ctx {
                     let mut local = Stats::default();
                     loop {
                         let start = next.fetch_add(chunk, Ordering::SeqCst) as usize;
-                        if start >= n || self.stop.load(Ordering::SeqCst) {
+                        if start >= n || self.stop.load(Ordering::SeqCst) || first_fail.lock().unwrap().is_some() {
                             break;
                         }
                         for i in start..(start + chunk as usize).min(n) {
@@ -532,7 +543,7 @@ impl Ctx {
         M: Fn() -> S + Sync,
         F: Fn(&C) -> Verdict + Sync,
     {
-        if self.stop.load(Ordering::SeqCst) {
+        if self.stop.load(Ordering::SeqCst) || !self.violations.lock().unwrap().is_empty() {
             return;
         }
         let shards = self.threads as u64;
